@@ -453,6 +453,48 @@ def same_kind_eq(a, b):
 
 
 
+def bounds(i: int, j: int, vi: int, form: int) -> bool:
+    """index()/count-like lookups with explicit start/stop (negative, zero, out of range):
+    same result or same exception as list.index.  All operands concrete after the solver's
+    decisions (CrossHair's model of list.index with bounds is not relied upon).
+    post: _
+    """
+    env = get_env().reset()
+    f = fams()[hlib.PART % len(fams())]
+    depth = (hlib.PART // len(fams())) % 2
+    i = pick([-6, -5, -4, -3, -2, -1, 0, 1, 2, 3, 4, 5, 6], i)
+    j = pick([-6, -4, -2, -1, 0, 1, 2, 4, 6, None], j)
+    val = pick([10, 20, 30, 99, [1, 2]], vi)
+    form = pick(["index(v,i)", "index(v,i,j)"], form)
+    if i is None or val is None or form is None or (j is None and form == "index(v,i,j)" and False):
+        return finish(False, True)
+    return ops.native(_bounds_cell, env, f, depth, i, j, val, form)
+
+
+def _bounds_cell(env, f, depth, i, j, val, form):
+    content = [10, 20, 10, [1, 2], 30]
+    doc, path, which = (content, (), "list") if depth == 0 else ({"a": content, "b": 9}, ("a",), "dict")
+    f.write(env, "r", copy_tree(doc))
+    root = f.make(env, which, "r")
+    t = root
+    for k in path:
+        t = t[k]
+    args = (val, i) if form == "index(v,i)" else (val, i, j if j is not None else 10 ** 6)
+    try:
+        got = ("ok", t.index(*args))
+    except hlib.Crash:
+        raise
+    except Exception as e:
+        got = ("exc", e)
+    try:
+        want = ("ok", copy_tree(content).index(*args))
+    except Exception as e:
+        want = ("exc", e)
+    case(f.cls(which).__name__, f"depth{depth}", form, i, j, repr(val))
+    good = got[0] == want[0] and (hlib.exc_class_ok(got[1], want[1]) if got[0] == "exc" else got[1] == want[1])
+    return finish(True, good or fail(lambda: f"{f.cls(which).__name__} depth {depth}: {content!r}.{form} with {args!r}: library {got!r}, list {want!r}"))
+
+
 def prog2(op1: int, op2: int, i: int, x: int, y: int, v1: int) -> bool:
     """
     pre: -2 <= i <= 2
@@ -507,12 +549,14 @@ def plan(tier):
             {"fn": "slices", "nparts": 14, "timeout": 300},
             {"fn": "compare", "nparts": 12, "timeout": 300},
             {"fn": "replace", "nparts": 16, "timeout": 300},
+            {"fn": "bounds", "nparts": 2, "timeout": 300},
         ]
     return [
         {"fn": "refine", "nparts": 18 * 4, "timeout": 1500},
         {"fn": "slices", "nparts": 14, "timeout": 1500},
         {"fn": "compare", "nparts": 12, "timeout": 1500},
         {"fn": "replace", "nparts": 48, "timeout": 1500},
+        {"fn": "bounds", "nparts": 6, "timeout": 1500},
         {"fn": "prog2", "nparts": 32, "timeout": 1500},
     ]
 
@@ -529,6 +573,10 @@ def smoke(tier):
         for ci in range(6):
             out.append(("compare", (ci, 2, 1, 1, 2, 1, 3), part, 12))
             out.append(("compare", (ci, 2, 2, 1, 2, 1, 2), part, 12))
+    nb = 2 if tier == "quick" else 6
+    for part in range(nb):
+        for i in range(13):
+            out.append(("bounds", (i, (i * 3) % 10, i % 5, i % 2), part, nb))
     nrep = 16 if tier == "quick" else 48
     for part in range(nrep):
         for ei in range(4):
